@@ -145,6 +145,11 @@ def _analyze_one(modname, fnname, case, timeout, floatmodel, exclusions, first):
     def _debug(*a):
         if a and a[0] in ("Exhausted", "Aborted"):
             exh.append(a[0])
+        elif a and isinstance(a[0], str) and a[0].startswith("Ignoring based on internal failed post condition"):
+            # CrossHair enforces the contracts of CALLED functions and silently drops a path on which a callee's own
+            # postcondition fails ("it will be surfaced in the subroutine"): for a harness that wraps another harness
+            # this would hide exactly the failures looked for -- count it as a cut path (=> inconclusive)
+            cut["unexplored"] += 1
         return _odebug(*a)
 
     seen_codes = set()
